@@ -488,6 +488,111 @@ for name, (formals, call) in SCENARIOS.items():
     c.setup = _init_setup
     con.cases.append(c)
 
+
+# the VHDL TYPE of an actual: a port map names the connected object (plus a slice / index), it contains no conversion.  The type
+# of that text is the DECLARED type of the root object (a slice of an unsigned signal is unsigned, whatever view the Python
+# object is), so for vector ports the root's vector type must be the port's: `b => u` with b : std_logic_vector and
+# u : unsigned is not legal VHDL although `b <<= u` is a legal assignment.  The placeholder values are the vectors of the core
+# model; the trial assignment is judged by the C05 contract of `_assign` (conversion matrix), used here as a summary.
+from cohdl import Unsigned as _U, Signed as _S, BitVector as _BV  # noqa: E402
+from contracts.core_models import vec as _vec  # noqa: E402
+from contracts import c05_convert as _C05  # noqa: E402,F401  (registers the _assign summaries)
+
+TYPED = {
+    # name: (port type, actual's own type, root's declared type, accepted?)   type = (kind, width)
+    "unsigned<-unsigned-signal": ((_U, 4), (_U, 4), (_U, 4), True),
+    "bitvector<-unsigned-signal": ((_BV, 4), (_U, 4), (_U, 4), False),
+    "unsigned<-bitvector-signal": ((_U, 4), (_BV, 4), (_BV, 4), False),
+    "unsigned<-unsigned-view-of-bitvector-signal": ((_U, 4), (_U, 4), (_BV, 4), False),
+    "bitvector<-slice-of-unsigned-signal": ((_BV, 4), (_BV, 4), (_U, 8), False),
+    "unsigned<-unsigned-view-of-slice-of-unsigned-signal": ((_U, 4), (_U, 4), (_U, 8), True),
+    "bitvector<-slice-of-bitvector-signal": ((_BV, 4), (_BV, 4), (_BV, 8), True),
+    "signed<-signed-view-of-slice-of-signed-signal": ((_S, 4), (_S, 4), (_S, 8), True),
+    "signed<-unsigned-signal": ((_S, 4), (_U, 4), (_U, 4), False),
+}
+
+
+def typed_shapes(port_t, actual_t, root_t):
+    def make_entity(env):
+        formal = SObj(_Formal, f_name="a", f_out=False, _default="DECL-DEFAULT", f_decayed=_vec(port_t[0], port_t[1], 0))
+        formal.fields["width"] = port_t[1]
+        info = SObj(_Info, name="ent", attributes={}, extern=True, instantiated=None, ports={"a": formal}, generics={}, architecture=None)
+        return SObj(CTX.Entity, _cohdl_info=info)
+
+    def make_actual(env):
+        root = SObj(Signal, f_tag="root", _default="DEFAULT-root", _ref_spec=[], f_decayed=_vec(root_t[0], root_t[1], 0))
+        root.fields["_root"] = root
+        root.fields["width"] = root_t[1]
+        if actual_t == root_t:
+            return root
+        view = SObj(Signal, f_tag="view", _default="DEFAULT-view", _ref_spec=["<slice / cast>"], f_decayed=_vec(actual_t[0], actual_t[1], 0), _root=root)
+        view.fields["width"] = actual_t[1]
+        return view
+
+    return [Built([], make_entity, lambda a: "<entity>", lambda a: None)], {"a": Built([], make_actual, lambda a: "<actual>", lambda a: None)}
+
+
+def typed_spec(accepted):
+    def spec(sx, self, **kwargs):
+        if not accepted:
+            sx.reject(AssertionError)
+        real_self, real_kw = sx.real_args[0], sx.real_kwargs
+        return C.Pred(lambda res: real_self.fields.get("_cohdl_port_definitions") == {"a": real_kw["a"]} and not sx.it.formal_writes, "accepted: the formal is associated with the actual")
+
+    return spec
+
+
+def _decay_model(it, val):
+    if isinstance(val, SObj) and "f_decayed" in val.fields:
+        return val.fields["f_decayed"]
+    return val
+
+
+from cohdl._core._type_qualifier import TypeQualifierBase as _TQB  # noqa: E402
+
+for name, (port_t, actual_t, root_t, accepted) in TYPED.items():
+    shapes, kw = typed_shapes(port_t, actual_t, root_t)
+    c = Case(f"connect-type:{name}", shapes, typed_spec(accepted), kwargs=kw)
+    c.native = False
+    c.may_reject = AssertionError
+    c.models = [
+        (CTX.Block.__dict__["__init__"], lambda it, self, *a, **k: None),
+        (CTX._register_block, lambda it, blk: None),
+        (_TQB.__dict__["decay"], _decay_model),
+    ]
+    c.setup = _init_setup
+    c.custom_replay = "contracts.c12_instances.replay_actual_type"
+    con.cases.append(c)
+
+
+_ACTUAL_TYPE_DESIGN = '''
+from cohdl import Entity, Port, BitVector, Unsigned, std
+class Leaf(Entity):
+    b = Port.input(BitVector[4])
+    r = Port.output(BitVector[4])
+    def architecture(self):
+        @std.concurrent
+        def logic():
+            self.r <<= self.b
+class Top(Entity):
+    u = Port.input(Unsigned[4])
+    y = Port.output(BitVector[4])
+    def architecture(self):
+        Leaf(b=self.u, r=self.y)          # b : std_logic_vector, u : unsigned
+try:
+    t = std.VhdlCompiler.to_string(Top)
+    print("ACCEPTED", [l.strip() for l in t.splitlines() if "=> u" in l])
+except AssertionError as e:
+    print("REJECTED", str(e)[:90])
+'''
+
+
+def replay_actual_type(payload):
+    from contracts.c06_extra import _run_design
+
+    rc, out = _run_design(_ACTUAL_TYPE_DESIGN)
+    return {"reproduced": rc == 0 and "ACCEPTED" in out, "detail": out[-300:]}
+
 _NARROW_DESIGN = '''
 from __future__ import annotations
 from cohdl import Entity, Port, Unsigned, std
